@@ -37,9 +37,13 @@ package local
 //@     && (bl.blockReleaseWakeup.isBlocking <==> !closed(bl.blockReleaseWakeup.channel))
 //@     && bl.blockPutWakeup.channel != nil && bl.blockReleaseWakeup.channel != nil
 //@     && bl.blockPutWakeup.channel != bl.blockReleaseWakeup.channel
-// No open epoch means nothing has been written since the last sync started.
-//@ pure pblK(bl) = len(bl.epochHashSeeds) == bl.synchronizingEpochs ==>
-//@     (forall i :: 0 <= i && i < len(bl.blocks) ==> bl.blocks[i].writtenOffsetBytes == bl.blocks[i].synchronizingOffsetBytes)
+// A block holding data written since the last sync started is covered by an
+// open epoch (one that is not being synchronised yet): the newest epoch is
+// open and ends in that block or a later one. In particular: no open epoch
+// means nothing has been written since the last sync started.
+//@ pure pblK(bl) = forall i :: 0 <= i && i < len(bl.blocks) && bl.blocks[i].writtenOffsetBytes != bl.blocks[i].synchronizingOffsetBytes ==>
+//@     len(bl.epochHashSeeds) > bl.synchronizingEpochs
+//@     && bl.epochLastAbsoluteBlockIndex[len(bl.epochLastAbsoluteBlockIndex) - 1] >= bl.totalBlocksReleased + i
 //@ pure pblInv(bl) = pblCounts(bl) && pblOffsets(bl) && pblPrefix(bl) && pblMono(bl) && pblEpochs(bl) && pblWake(bl) && pblK(bl)
 
 // ---- Block and BlockAllocator (interfaces): they do not touch the list.
@@ -66,11 +70,13 @@ package local
 //@   inline
 //@ func (*notificationChannel).block
 //@   requires nc.channel != nil && (nc.isBlocking <==> !closed(nc.channel))
+//@   modifies nc.isBlocking, nc.channel
 //@   ensures [blocking] nc.isBlocking && !closed(nc.channel) && nc.channel != nil
 //@   ensures [kept-if-was-blocking] old(nc.isBlocking) ==> nc.channel == old(nc.channel)
 //@   ensures [fresh-otherwise] !old(nc.isBlocking) ==> fresh(nc.channel)
 //@ func (*notificationChannel).unblock
 //@   requires nc.channel != nil && (nc.isBlocking <==> !closed(nc.channel))
+//@   modifies nc.isBlocking, closed(nc.channel)
 //@   ensures [unblocked] !nc.isBlocking && closed(nc.channel) && nc.channel == old(nc.channel)
 
 // ---- resolver (C02 K02.2, C06)
